@@ -2,6 +2,7 @@
    Part 1 is stated over the outcome table REGENERATED from /repo on every run (gen/Gen_BifOutcomes.v);
    part 2 over the line-reader models that harness/py/checks/c18.py runs against the implementation (C18/Harness.v). *)
 From Miller Require Import Base.Bytes Base.Record C18.BifTable C18.Exceptions C18.Model C18.Proofs C18.TableProofs gen.Gen_BifOutcomes.
+From Miller Require C01.Model C01.ModelXtab C01.ModelLite C18.ModelReaders C18.ProofsReaders.
 Open Scope N_scope.
 
 (* ---- part 1: built-in functions x argument-kind tuples ---- *)
@@ -91,3 +92,104 @@ Example C18_nonvacuous :
   /\ read_tsv (B "a" ++ [TAB] ++ B "a" ++ [LF] ++ B "1" ++ [TAB] ++ B "2" ++ [LF]) = Ok [[(B "a", B "1"); (B "a_2", B "2")]]
   /\ read_dkvp (B "a=1,,b,=3" ++ [LF]) = Ok [[(B "a", B "1"); (B "3", B "b"); ([], B "3")]].
 Proof. split; [exact table_nonvacuous|]. vm_compute. repeat split; reflexivity. Qed.
+
+(* ---- part 2b: classified CSV / CSV-lite / PPRINT / XTAB readers (C18/ModelReaders.v; totality is Gallina's: every reader
+   is a structurally recursive function bytes -> COk records | CErr class -- the line / field / byte loops recurse on the
+   list they consume, no fuel) ---- *)
+Module R.
+Import C01.Model C01.ModelXtab C01.ModelLite C18.ModelReaders C18.ProofsReaders.
+
+(* CSV, for ALL byte strings and ALL option records (implicit header, lazy quotes, dedupe, ragged, skip-trivial, separator):
+   each outcome happens exactly on its malformed class.  The classes, in the order in which they win:
+   invalid separator; a quote error in a record of which no field was completed (csv_quote_malformed, the Go reader's
+   dst == nil -- quote errors after a completed field are NOT reported by record_reader_csv.go: the fields read so far
+   become a record and the rest of the line is dropped; the model does the same); a data row whose field count differs from
+   the header's while ragged mode is off and the row is not a skipped trivial one. *)
+Theorem C18_csv_err_delim_iff : forall o s, read_csv_c o s = CErr EDelim <-> csv_delim_malformed o = true.
+Proof. exact read_csv_delim. Qed.
+Print Assumptions C18_csv_err_delim_iff.
+
+Theorem C18_csv_err_quote_iff : forall o s k,
+  read_csv_c o s = CErr (EParse k) <-> csv_delim_malformed o = false /\ csv_quote_malformed o s = Some k.
+Proof. exact read_csv_parse. Qed.
+Print Assumptions C18_csv_err_quote_iff.
+
+Theorem C18_csv_err_mismatch_iff : forall o s,
+  (exists a b r, read_csv_c o s = CErr (EMismatch a b r))
+  <-> csv_delim_malformed o = false /\ csv_quote_malformed o s = None /\ csv_length_malformed o s = true.
+Proof. exact read_csv_mismatch. Qed.
+Print Assumptions C18_csv_err_mismatch_iff.
+
+Theorem C18_csv_ok_iff : forall o s,
+  (exists rs, read_csv_c o s = COk rs)
+  <-> csv_delim_malformed o = false /\ csv_quote_malformed o s = None /\ csv_length_malformed o s = false.
+Proof. exact read_csv_ok. Qed.
+Print Assumptions C18_csv_ok_iff.
+
+(* the message names the header size, the row's size and the number of the FIRST offending row *)
+Theorem C18_csv_mismatch_position : forall o s a b r,
+  read_csv_c o s = CErr (EMismatch a b r) ->
+  exists hs n0 pre bad post,
+    csv_header_data (o_implicit o) (csv_rows_or_nil o s) = Some (hs, n0, pre ++ bad :: post)
+    /\ forallb (row_passes (o_ragged o) (o_skiptriv o) hs) pre = true
+    /\ row_bad (o_ragged o) (o_skiptriv o) hs bad = true
+    /\ a = nlen hs /\ b = nlen bad /\ r = (n0 + N.of_nat (List.length pre))%N.
+Proof. exact read_csv_mismatch_position. Qed.
+Print Assumptions C18_csv_mismatch_position.
+
+(* the quote class, independently of the machine for two large families: with lazy quotes nothing is rejected; a text
+   without a double-quote byte is never rejected.  PARTIAL: for texts with quotes and lazy off the class is stated through
+   the record machine itself (csv_quote_malformed), not through an independent grammar. *)
+Theorem C18_csv_lazy_never_quote_error : forall comma s, exists rows, csv_rows_c true comma s = RowsOk rows.
+Proof. exact csv_rows_lazy. Qed.
+Print Assumptions C18_csv_lazy_never_quote_error.
+
+Theorem C18_csv_no_quote_no_quote_error_partial : forall lazy comma s, nochar DQ s = true -> exists rows, csv_rows_c lazy comma s = RowsOk rows.
+Proof. exact csv_rows_nodq. Qed.
+Print Assumptions C18_csv_no_quote_no_quote_error_partial.
+
+(* CSV-lite and PPRINT (one reader, getRecordBatchExplicitCSVHeader): an error exactly when ragged mode is off and some
+   schema block (maximal run of non-empty lines) has a line whose field count differs from the block's first line *)
+Theorem C18_lite_err_iff : forall o s, (exists e, read_lite_c o s = CErr e) <-> lite_malformed o s = true.
+Proof. exact read_lite_err_iff. Qed.
+Print Assumptions C18_lite_err_iff.
+
+Theorem C18_lite_error_position : forall o ls hdr line e,
+  lite_go_c o hdr line ls = CErr e ->
+  exists (hs : list bytes) pre bad post, ls = pre ++ bad :: post
+    /\ e = EMismatch (nlen hs) (N.of_nat (nf o bad)) (line + N.of_nat (List.length pre))
+    /\ is_nil bad = false /\ List.length hs <> nf o bad /\ l_ragged o = false.
+Proof. exact lite_go_err_shape. Qed.
+Print Assumptions C18_lite_error_position.
+
+(* XTAB has no malformed class: for every IPS, every byte string is read, one record per stanza; in particular the
+   reader's "internal coding error in XTAB reader" is unreachable (a stanza never holds an empty line) *)
+Theorem C18_xtab_total : forall ips dedupe s,
+  exists rs, read_xtab_c ips dedupe s = COk rs /\ List.length rs = List.length (xtab_stanzas (lines_of s) []).
+Proof. exact read_xtab_total. Qed.
+Print Assumptions C18_xtab_total.
+
+(* never indexes out of range: the counted loops of getRecordBatch over header[i] / csvRecord[i], written with nth_error
+   (None = Go's index-out-of-range panic), reach no None for ANY header and row, ragged or not, padded or not *)
+Theorem C18_row_loops_no_oob : forall dedupe fill hs fs, exists r, row_indexed dedupe fill hs fs = Some r.
+Proof. exact row_indexed_total. Qed.
+Print Assumptions C18_row_loops_no_oob.
+
+(* non-vacuity: concrete inputs reach every outcome class *)
+Example C18_readers_nonvacuous :
+  let o := mkO false false true false false "," in
+  read_csv_c o (B "a,b" ++ [LF] ++ B "1,x" ++ [DQ] ++ B "y" ++ [LF]) = CErr (EMismatch 2 1 2)
+  /\ read_csv_c o (B "a,b" ++ [LF] ++ B "x" ++ [DQ] ++ B "y,2" ++ [LF]) = CErr (EParse BareQuote)
+  /\ read_csv_c o (B "a,b" ++ [LF] ++ [DQ] ++ B "x" ++ [DQ] ++ B "y,2" ++ [LF]) = CErr (EParse BadQuote)
+  /\ read_csv_c (mkO false false true false false DQ) [] = CErr EDelim
+  /\ read_csv_c o (B "a,b" ++ [LF] ++ B "1,2,x" ++ [DQ] ++ B "y" ++ [LF] ++ B "3,4" ++ [LF; CR])
+     = CErr (EMismatch 2 1 4)
+  /\ read_csv_c (mkO false true true true false ",") (B "a,b" ++ [LF] ++ B "1,2,x" ++ [DQ] ++ B "y" ++ [LF])
+     = COk [[(B "a", B "1"); (B "b", B "2"); (B "3", B "x" ++ [DQ] ++ B "y")]]
+  /\ read_lite_c (csvlite_opts (B ",") true false) (B "a,b" ++ [LF] ++ B "1,2" ++ [LF; LF] ++ B "c" ++ [LF] ++ B "3,4" ++ [LF])
+     = CErr (EMismatch 1 2 5)
+  /\ read_lite_c (pprint_opts true false) (B "a  b" ++ [LF] ++ B "1 -" ++ [LF]) = COk [[(B "a", B "1"); (B "b", [])]]
+  /\ read_xtab_c (B " ") true (B "a   1" ++ [LF] ++ B "b" ++ [LF; LF; LF] ++ B " c" ++ [LF])
+     = COk [[(B "a", B "1"); (B "b", [])]; [([], B "c")]].
+Proof. vm_compute. repeat split; reflexivity. Qed.
+End R.
